@@ -421,3 +421,26 @@ def setup_paths():
 	for name in list(sys.modules):
 		if name.startswith('symbolchain'):
 			del sys.modules[name]
+
+
+# ---------------------------------------------------------------------------------------------------------------------
+# value trees in replay files
+
+def tree_to_json(tree):
+	if tree is None or isinstance(tree, int):
+		return tree
+	if isinstance(tree, (bytes, bytearray)):
+		return {'b': bytes(tree).hex()}
+	if isinstance(tree, list):
+		return [tree_to_json(item) for item in tree]
+	return {'S': tree[1], 'm': [[name, tree_to_json(value)] for name, value in tree[2]]}
+
+
+def tree_from_json(data):
+	if data is None or isinstance(data, int):
+		return data
+	if isinstance(data, list):
+		return [tree_from_json(item) for item in data]
+	if 'b' in data:
+		return bytes.fromhex(data['b'])
+	return ('S', data['S'], [(name, tree_from_json(value)) for name, value in data['m']])
